@@ -35,6 +35,7 @@ class Communities(Attribute):
 
     ID = Attribute.CODE.COMMUNITY
     FLAG = Attribute.Flag.TRANSITIVE | Attribute.Flag.OPTIONAL
+    TREAT_AS_WITHDRAW = True  # RFC 7606 7.8 / 7.14 (and 3.c for wrong flag bits)
 
     def __init__(self, packed: Buffer = b'') -> None:
         """Initialize from packed wire-format bytes.
